@@ -76,6 +76,10 @@ type vc16Rec struct {
 
 	// DoneCtx makes the Record call with an already-cancelled context.
 	DoneCtx bool
+
+	// T is the query's start time in seconds after vc16Base, drawn
+	// independently of the recording order (earlier, equal, later).
+	T int
 }
 
 // Context modes of one Refresh call.
@@ -152,7 +156,8 @@ func (w *vc16World) record(rc *vc16Rec) {
 	w.n++
 	m := rc.Meta
 	m.N = w.n
-	m.Time = vc16Base.Add(time.Duration(w.n)*time.Second + time.Duration(w.n)*time.Microsecond)
+	// The start time is not monotone in recording order.
+	m.Time = vc16Base.Add(time.Duration(rc.T)*time.Second + time.Duration(rc.T)*time.Microsecond)
 	d := vc16Devs[rc.Dev]
 	if prev, ok := w.last[d]; rc.Near == 4 {
 		m.Ctry, m.ASN = geoip.CountryNone, 0
@@ -258,13 +263,15 @@ func (c *vc16Client) SaveDevicesBillingStat(
 	// Number of messages a correct client sends: devices with undelivered
 	// queries.  Only used to place the scripted fault.
 	expect := 0
+	heldAtOpen := map[agd.DeviceID]bool{}
 	for d := range w.recorded {
 		if w.recorded[d] > w.delivered[d] {
 			expect++
+			heldAtOpen[d] = true
 		}
 	}
 
-	return &vc16Stream{ctx: ctx, w: w, a: a, lastAtOpen: lastAtOpen, failAt: a.SendAt * expect / 1000, midAt: a.MidAt * (expect + 1) / 1000}, nil
+	return &vc16Stream{heldAtOpen: heldAtOpen, ctx: ctx, w: w, a: a, lastAtOpen: lastAtOpen, failAt: a.SendAt * expect / 1000, midAt: a.MidAt * (expect + 1) / 1000}, nil
 }
 
 type vc16Stream struct {
@@ -274,6 +281,7 @@ type vc16Stream struct {
 	w          *vc16World
 	a          *vc16Attempt
 	lastAtOpen map[agd.DeviceID]vc16Meta
+	heldAtOpen map[agd.DeviceID]bool
 	msgs       []*DeviceBillingStat
 	failAt     int
 	midAt      int
@@ -332,6 +340,23 @@ func (s *vc16Stream) markFailed() {
 	for d := range s.midDevs {
 		if s.w.failedSeen[d] {
 			s.w.recAfterFail[d] = true
+		}
+
+		// Coverage: a query of a device held by this failed upload was
+		// recorded while it was in flight; its start time against the held
+		// one.
+		held := s.lastAtOpen[d]
+		if !s.heldAtOpen[d] {
+			continue
+		}
+
+		switch now := s.w.last[d].Time; {
+		case now.Before(held.Time):
+			s.w.classes["recorded-during-failed-upload-with-earlier-start-time"] = true
+		case now.Equal(held.Time):
+			s.w.classes["recorded-during-failed-upload-with-equal-start-time"] = true
+		default:
+			s.w.classes["recorded-during-failed-upload-with-later-start-time"] = true
 		}
 	}
 }
@@ -514,6 +539,7 @@ func vc16DrawRec(t *rapid.T, nDev int) (rc vc16Rec) {
 		},
 		Near:    rapid.SampledFrom([]int{0, 0, 1, 2, 3, 4, 0}).Draw(t, "near"),
 		DoneCtx: rapid.IntRange(0, 5).Draw(t, "recDoneCtx") == 3,
+		T:       rapid.SampledFrom([]int{6, 2, 9, 6, 0, 12, 4, 7, 1, 10, 3, 5, 8, 11}).Draw(t, "startTime"),
 	}
 }
 
@@ -522,7 +548,8 @@ func TestVerifC16Wire(t *testing.T) {
 		"rapid histories through RuntimeRecorder -> real backendpb.BillStat -> scripted gRPC client stream: per round 0..4 records, then a Refresh (context live | already cancelled | already past its deadline | cancelled mid-stream) whose stream succeeds | fails to open | fails in Send at a drawn position | fails in CloseAndRecv, optionally with records arriving mid-stream; ends with a successful flush; non-trivial = a failed stream holding device d, a later Record(d), then a successful stream holding d; distinct by (devices, fault kinds, placement)",
 		"fail-then-record-then-success", "open-error", "send-error-first", "send-error-later", "close-error", "record-mid-stream",
 		"refresh-with-done-context-nonempty", "open-error-done-context", "stream-cancelled-in-flight",
-		"send-error-eof", "near-miss-one-field", "unknown-location-after-known", "record-with-done-context")
+		"send-error-eof", "near-miss-one-field", "unknown-location-after-known", "record-with-done-context",
+		"recorded-during-failed-upload-with-earlier-start-time", "recorded-during-failed-upload-with-equal-start-time", "recorded-during-failed-upload-with-later-start-time")
 	st.Finish(t)
 
 	rapid.Check(t, func(t *rapid.T) {
